@@ -37,6 +37,62 @@ def run_demo(d):
     return sh([gobin, "run", "-tags", "verif", "."], d, 600)
 
 
+def import_area(specs):
+    """changes written per code area (not per property): /tmp/wt-out4/<name>/X<n>.diff, worktree /tmp/wt/<wt>;
+    spec = name:wt.  Kept as /verif/seeded/X-<name>-<n>/ with the properties the author says are broken."""
+    for spec in specs:
+        name, wtn = spec.split(":")
+        wt, out = "/tmp/wt/" + wtn, "/tmp/wt-out4/" + name
+        meta = json.load(open(os.path.join(out, "meta.json")))
+        by = {c["name"]: c for c in meta.get("changes", [])}
+        for x in ("X1", "X2", "X3"):
+            diff = os.path.join(out, x + ".diff")
+            if not os.path.exists(diff):
+                continue
+            sh(["git", "checkout", "--", "."], wt)
+            sh(["git", "clean", "-fdq"], wt)
+            rc, o = sh(["git", "apply", "--check", diff], wt)
+            if rc != 0:
+                print(name, x, "REJECTED: does not apply", o[:200])
+                continue
+            touched = [l[6:].strip() for l in open(diff) if l.startswith("+++ b/")]
+            if any(t.endswith("_test.go") or t.endswith("verif_hooks.go") for t in touched):
+                print(name, x, "REJECTED: touches tests/hooks", touched)
+                continue
+            sh(["git", "apply", diff], wt)
+            rc_b, _ = sh(["go", "build", "./..."], wt)
+            rc_t, o_t = sh(["go", "test", "-vet=off", "-count=1", "./..."], wt)
+            rc_c, o_c = run_demo(os.path.join(out, "demo" + x))
+            sh(["git", "checkout", "--", "."], wt)
+            sh(["git", "clean", "-fdq"], wt)
+            rc_u, o_u = run_demo(os.path.join(out, "demo" + x))
+            ok = rc_b == 0 and rc_t == 0 and rc_c is not None and (rc_c != rc_u or o_c != o_u)
+            c = by.get(x, {})
+            breaks = [b for b in (c.get("breaks") or []) if b.startswith("C")]
+            print("X-%s-%s build=%s tests=%s demo changed rc=%s unchanged rc=%s breaks=%s -> %s" % (
+                name, x[1:], rc_b, rc_t, rc_c, rc_u, breaks, "CONFIRMED" if ok and breaks else "NOT CONFIRMED"))
+            if not (ok and breaks):
+                continue
+            dst = os.path.join(ROOT, "seeded", "X-%s-%s" % (name, x[1:]))
+            if os.path.exists(dst):
+                shutil.rmtree(dst)
+            os.makedirs(os.path.join(dst, "demo"))
+            shutil.copy(diff, os.path.join(dst, "patch.diff"))
+            for f in glob.glob(os.path.join(out, "demo" + x, "*")):
+                if os.path.isfile(f) and os.path.getsize(f) < 200000 and not f.endswith("go.sum"):
+                    shutil.copy(f, os.path.join(dst, "demo"))
+            open(os.path.join(dst, "demo", "confirmed_changed.txt"), "w").write("rc=%s\n%s" % (rc_c, (o_c or "")[-6000:]))
+            open(os.path.join(dst, "demo", "confirmed_unchanged.txt"), "w").write("rc=%s\n%s" % (rc_u, (o_u or "")[-6000:]))
+            json.dump(dict(property=breaks[0], also_checked_by=breaks[1:], name="X-%s-%s" % (name, x[1:]),
+                           origin="fresh sub-agent given all twenty property texts, one code area and a scratch worktree",
+                           summary=c.get("summary"), files=touched, manifests_when=c.get("manifests_when"),
+                           expected_vs_actual=c.get("expected_vs_actual"),
+                           confirmed=dict(applies=True, builds=True, existing_tests_pass=True,
+                                          demo_differs_between_changed_and_unchanged=True)),
+                      open(os.path.join(dst, "meta.json"), "w"), indent=1)
+    return 0
+
+
 def import_harmless(pids):
     """behaviour-preserving rewrites from /tmp/wt-out3/<id>/R*.diff: apply, build (with and without the
     verif tag), run the existing tests; kept under /verif/harmless/<id>-R<n>/"""
@@ -89,6 +145,8 @@ def main():
         args = args[1:]
     if args and args[0] == "--harmless":
         return import_harmless(args[1:])
+    if args and args[0] == "--area":
+        return import_area(args[1:])
     for pid in args:
         wt, out = "/tmp/wt/" + pid, outroot + "/" + pid
         meta = json.load(open(os.path.join(out, "meta.json")))
